@@ -265,8 +265,9 @@ Qed.
 Lemma model_route_is_spec c r l :
   cfg_ok c -> model_route c r l = Some (spec_route r l).
 Proof.
-  intros Hc. destruct r as [stages chunk cap| |cap]; cbn [model_route spec_route].
+  intros Hc. destruct r as [stages chunk cap|stages k cap| |cap]; cbn [model_route spec_route].
   - apply through_pipes_identity. assumption.
+  - rewrite through_pipes_identity by assumption. reflexivity.
   - rewrite through_pipe_identity by assumption. f_equal. apply strip_nl_as_trailing_lemma.
   - apply heredoc_bytes_exact_lemma; [constructor | lia].
 Qed.
